@@ -3,8 +3,10 @@ package checks
 import (
 	"encoding/base64"
 	"fmt"
+	"github.com/volatiletech/authboss/v3/remember"
 	"net/http"
 	"strings"
+	"sync"
 	"unicode/utf8"
 
 	"verif/sim"
@@ -424,6 +426,17 @@ func init() {
 		Rule:  "histories of issue/use/replay/theft/logout/password-reset over accounts whose identifiers come from a hostile corpus (';', ';;', NUL, non-ASCII, invalid UTF-8 (Latin-1, binary), 320 bytes, trailing ';') and over OAuth2 accounts (identifiers the library builds itself); cookie values presented: live, spent, revoked, stolen onto another browser, net/http-invisible, not base64, no separator, separator first/last, right PID + zero nonce, another account's nonce under this PID, truncated/extended live cookies, 8 KB. Ledger: every rm value seen in a Set-Cookie with the account the server's token table attributes it to, spent/revoked marks. Oracle per request: live cookie from a uid-less browser => put(uid=that account), halfauth, a fresh value, same number of token rows, and no admission to a full-auth route; any other value => no session and the cookie deleted (when the response wrote client state); logged-in browsers are left alone; no rm value is issued unless rm=true was submitted (or rotation); full logins clear halfauth. distinct_nontrivial = distinct (action, cookie state, PID class, session state, uid outcome, #values issued, deleted) signatures.",
 		Units: func(t string) int { return tierN(t, 800, 40000) },
 		Run: func(c *RunCtx, unit int) {
+			if unit%100 == 0 {
+				// "bound to one user", "a fresh value": the token mint itself, called from 32 goroutines at
+				// once (as concurrent logins and rotations do) — every token names the pid it was minted for
+				// and no 32-byte nonce comes out twice
+				if msg, n := mintBurst(32, 4000); msg != "" {
+					c.Stats.Violations = append(c.Stats.Violations, sim.VioRec{Violation: *vio("C07", "token-mint-under-concurrency", "%s", msg), Index: unit})
+				} else {
+					c.Stats.Add("tokens-minted-in-parallel", n)
+					c.Stats.Evaluations += n
+				}
+			}
 			r := Rng(c.Seed, "C07", unit)
 			cfg := randomCfg(r, "auth", "remember", "logout")
 			cfg.UseExpire = false
@@ -449,4 +462,38 @@ func init() {
 		},
 		Assumptions: []string{"'issued to' is learned from the server's own token table (the i-th AddRememberToken call of a request pairs with the i-th rm value it set)", "the 'deleted from the client' clause is judged only on responses that wrote client state (a handler that errors under the silent error handler writes nothing; that is C11/C18 territory)"},
 	})
+}
+
+// mintBurst calls remember.GenerateToken from G goroutines M times each and checks the tokens.
+func mintBurst(G, M int) (string, int) {
+	toks := make([][]string, G)
+	var wg sync.WaitGroup
+	for g := 0; g < G; g++ {
+		wg.Add(1)
+		go func(g int) {
+			defer wg.Done()
+			pid := fmt.Sprintf("mint%d@site.test", g)
+			for i := 0; i < M; i++ {
+				if _, tok, err := remember.GenerateToken(pid); err == nil {
+					toks[g] = append(toks[g], tok)
+				}
+			}
+		}(g)
+	}
+	wg.Wait()
+	seen := map[string]int{}
+	for g := range toks {
+		pid := fmt.Sprintf("mint%d@site.test", g)
+		for _, t := range toks[g] {
+			b, err := base64.URLEncoding.DecodeString(t)
+			if err != nil || len(b) != len(pid)+33 || string(b[:len(pid)+1]) != pid+";" {
+				return fmt.Sprintf("a token minted for %s is %q", pid, trunc(t, 24)), 0
+			}
+			if other, dup := seen[string(b[len(pid)+1:])]; dup {
+				return fmt.Sprintf("the same 32-byte nonce was minted twice (for mint%d and for %s) among %d tokens minted by %d goroutines", other, pid, G*M, G), 0
+			}
+			seen[string(b[len(pid)+1:])] = g
+		}
+	}
+	return "", len(seen)
 }
